@@ -231,6 +231,11 @@ Proof.
       intros s [Hin|Hin]; [congruence|]. specialize (Hall _ Hin). cbn in Hall. lia.
 Qed.
 
+Arguments close_from_noop {value}.
+Arguments close_from_list {value}.
+Arguments close_from_sorted {value}.
+Arguments close_from_store {value}.
+
 Section UpvaluesProofs.
 Variable value : Type.
 
@@ -245,7 +250,7 @@ Lemma list_inv_set_fib : forall (st : mstate value) g fb,
   list_inv st -> open_list_ok (openl fb) (slen fb) = true -> list_inv (set_fib st g fb).
 Proof.
   intros st g fb Hinv Hfb f. cbn. unfold upd.
-  destruct (Nat.eqb_spec f g); [exact Hfb|apply Hinv].
+  destruct (Nat.eqb_spec f g) as [Hf|Hf]; [exact Hfb|apply Hinv].
 Qed.
 
 Lemma list_inv_close_trunc : forall (st : mstate value) idx,
@@ -257,7 +262,7 @@ Proof.
   pose proof (close_from_sorted (sdata (cfib st)) (openl (cfib st)) idx (ustore st) Hs) as HS.
   destruct (close_from (sdata (cfib st)) (openl (cfib st)) idx (ustore st)) as [l' us'].
   cbn [fst snd] in *. cbn. unfold upd.
-  destruct (Nat.eqb_spec f (cur st)); [|apply Hinv].
+  destruct (Nat.eqb_spec f (cur st)) as [Hf|Hf]; [|apply Hinv].
   cbn. apply open_list_ok_iff. split; [exact HS|].
   intros e He. apply HL in He. tauto.
 Qed.
@@ -292,10 +297,10 @@ Proof.
     destruct (Nat.ltb_spec loc (slen (cfib st))) as [Hlt|Hge]; [|exact Hinv].
     unfold capture.
     pose proof (capture_in_sorted (openl (cfib st)) loc (unext st) Hs) as HS.
-    pose proof (capture_in_below (openl (cfib st)) loc (unext st) Hlt Hall) as HB.
+    pose proof (capture_in_below (openl (cfib st)) loc (unext st) _ Hlt Hall) as HB.
     destruct (capture_in (openl (cfib st)) loc (unext st)) as [l' k]. cbn [fst snd] in *.
     destruct (k =? unext st); cbn [fst]; [|exact Hinv].
-    intros f. cbn. unfold upd. destruct (Nat.eqb_spec f (cur st)); [|apply Hinv].
+    intros f. cbn. unfold upd. destruct (Nat.eqb_spec f (cur st)) as [Hf|Hf]; [|apply Hinv].
     cbn. apply open_list_ok_iff. split; assumption.
   - (* CloseTop *)
     destruct (slen (cfib st) =? 0); [exact Hinv|]. cbn [fst].
